@@ -886,6 +886,11 @@ func judgeRouteCaseFlame(w *core.W, c *routeCase, prop string) {
 			w.Violate("params-after-next", c, fmt.Sprintf("ServeHTTP(%s %q): %s", method, path, drift))
 			return
 		}
+		if v, ok := seen["left-behind-by-an-earlier-request"]; ok {
+			// the shared route handler writes this key into the map it was given after it has recorded what it saw
+			w.Violate("params-of-another-request", c, fmt.Sprintf("ServeHTTP(%s %q): the handler's parameters hold what the handler of an earlier request (route %q) wrote into its own parameter map", method, path, v))
+			return
+		}
 		obs := observed{found: hit >= 0, routeIdx: hit, params: seen, flame: true}
 		if obs.found {
 			obs.routeText = seen["route"]
